@@ -111,6 +111,21 @@ def _layouts(typ, n, params, axes, tier):
     yield spec(axes, [(i, 0) for i in range(n)], cons(list(range(n))), f"F1:{typ}:own")
     if n < 2:
         return
+    if n >= 3:
+        # (iv) three positions on one shared domain (three views: offsets 0/0/0, 0/0/1, 0/1/2)
+        lo3, hi3 = max(a[0] for a in axes[:3]), min(a[1] for a in axes[:3])
+        for offs in ((0, 0, 0), (0, 0, 1), (0, 1, 2), (1, 0, 0)):
+            if hi3 - max(offs) < lo3:
+                continue
+            doms, variables, vs = [(lo3, hi3 - max(offs))], [], []
+            for i in range(n):
+                if i < 3:
+                    variables.append((0, offs[i]))
+                else:
+                    doms.append(axes[i])
+                    variables.append((len(doms) - 1, 0))
+                vs.append(len(variables) - 1)
+            yield spec(doms, variables, cons(vs), f"F1:{typ}:views{''.join(map(str, offs))}")
     pairs = list(itertools.combinations(range(n), 2)) if th else sorted({(0, 1), (0, n - 1), (n - 2, n - 1)})
     for a, b in pairs:
         if a == b:
